@@ -24,6 +24,8 @@ RULE = (
     "spans the body, and the command-line finder prints the same line:col and first line. non-trivial = at least one "
     "match was reported"
 )
+RULE += (" 13 further kinds: several occurrences of the pattern at different depths with the first in source order not the shallowest "
+         "(foo.bar(foo), nested calls, repeated statements), decorator spellings '@ dec', '@(dec)', multi-line decorator call, async def, a source ending in '@'.")
 ASSUMPTIONS = [
     "reference geometry: ast positions are (line, UTF-8 byte column) with lines ending at LF, CRLF or CR only",
     "the complete text of a decorated definition starts at the first decorator's '@'",
